@@ -522,6 +522,15 @@ def net_spec(
     return {"cls": cls, "kind": kind, "nodes": nodes, "edges": edges, "net": draw(a)}
 
 
+def awkward_attr_names(H):
+    """attribute names that coincide with parameter names of the adders (settable through the attribute setters only)"""
+    ns, es = list(H.nodes), list(H.edges)
+    if ns:
+        H.set_node_attributes({ns[0]: {"node": 1, "idx": "i", "attr": 2}})
+    if es:
+        H.set_edge_attributes({es[-1]: {"members": 1, "idx": "i", "edge": 2, "id": 3}})
+
+
 def build(spec):
     """construct the network of a spec through the public adders (nodes first, then edges in order)"""
     cls = spec["cls"]
